@@ -63,7 +63,70 @@ func EstimateExpansion(text string, cfg Config) float64 {
 		valMemo[id] = v
 		return v
 	}
+	// an upper bound of |value|: sums of products, read with a small parser of its own;
+	// anything it does not understand falls back to the cruder product of everything
+	var valBoundCrude func(toks []string, stack map[string]bool) float64
 	valBound = func(toks []string, stack map[string]bool) float64 {
+		pos := 0
+		ok := true
+		var expr func() float64
+		factor := func() float64 {
+			for pos < len(toks) && (toks[pos] == "+" || toks[pos] == "-") {
+				pos++
+			}
+			if pos >= len(toks) {
+				ok = false
+				return 1
+			}
+			t := toks[pos]
+			pos++
+			switch {
+			case t == "(":
+				v := expr()
+				if pos < len(toks) && toks[pos] == ")" {
+					pos++
+				} else {
+					ok = false
+				}
+				return v
+			case isNumber(t):
+				return parseBound(t)
+			case isWord(t):
+				return idVal(t, stack)
+			}
+			ok = false
+			return 1
+		}
+		term := func() float64 {
+			v := factor()
+			for ok && pos < len(toks) && (toks[pos] == "*" || toks[pos] == "/" || toks[pos] == "%") {
+				pos++
+				f := factor()
+				if f < 1 {
+					f = 1
+				}
+				v *= f // a quotient or remainder is not larger than that either
+			}
+			return v
+		}
+		expr = func() float64 {
+			v := term()
+			for ok && pos < len(toks) && (toks[pos] == "+" || toks[pos] == "-") {
+				pos++
+				v += term()
+			}
+			return v
+		}
+		v := expr()
+		if !ok || pos != len(toks) || math.IsNaN(v) {
+			return valBoundCrude(toks, stack)
+		}
+		if v > 1e18 {
+			return math.Inf(1)
+		}
+		return v
+	}
+	valBoundCrude = func(toks []string, stack map[string]bool) float64 {
 		b := 1.0
 		for _, t := range toks {
 			switch {
